@@ -22,6 +22,8 @@ import (
 )
 
 type addend struct {
+	otoks   string // what the Lean model is asked (default: toks)
+	derive  map[int]func(rho func(int) uint64) uint64 // vregs whose content is defined by an instruction of the shape
 	toks    string
 	shape   bool // AExpr.frontendShape
 	isShl   bool
@@ -71,10 +73,37 @@ func addends(rnd *rand.Rand) []addend {
 		}
 		out = append(out, addend{toks: fmt.Sprintf("shl %s ar 5", x), shape: false, isShl: true, eval: func(r func(int) uint64) uint64 { return xe(r) << (r(5) % 64) }, cleanOK: yes})
 	}
+	// UExtend / SExtend of a MATCHED 32-bit instruction (single use, same group): the model treats the operand as
+	// "any non-constant 32-bit value living in its own vreg" (Op32.r32); the real code must not look through it
+	// in a way that changes the 32-bit wrap-around (e.g. fold `x << c` into the SIB scale: x*2^c is computed in
+	// 64 bits).  Operand in vreg 2, result of the 32-bit instruction in vreg 7.
+	for _, op := range []string{"shl", "add", "mul"} {
+		for _, c := range []uint32{0, 1, 2, 3, 4, 31, 0x80000000} {
+			if op == "shl" && c > 31 {
+				continue
+			}
+			op, c := op, c
+			f32 := func(r func(int) uint64) uint32 {
+				x := uint32(r(2))
+				switch op {
+				case "shl":
+					return x << c
+				case "add":
+					return x + c
+				}
+				return x * c
+			}
+			dv := map[int]func(func(int) uint64) uint64{7: func(r func(int) uint64) uint64 { return uint64(f32(r)) }}
+			out = append(out, addend{toks: fmt.Sprintf("ux i %s 2 %d 7", op, c), otoks: "ux r 7", derive: dv, shape: true,
+				eval: func(r func(int) uint64) uint64 { return uint64(f32(r)) }, cleanOK: clean2})
+		}
+	}
 	return out
 }
 
 type amCase struct {
+	otoks  string
+	derive map[int]func(rho func(int) uint64) uint64
 	id     int
 	off    uint32
 	toks   string
@@ -156,15 +185,37 @@ func amodeUnit(work string, rnd *rand.Rand) {
 	as := addends(rnd)
 	offs := []uint32{0, 1, 0x7fffffff, 0x80000000, 0xffffffff, rnd.Uint32()}
 	var cases []*amCase
+	ot := func(a addend) string {
+		if a.otoks != "" {
+			return a.otoks
+		}
+		return a.toks
+	}
+	merge := func(ms ...map[int]func(func(int) uint64) uint64) map[int]func(func(int) uint64) uint64 {
+		out := map[int]func(func(int) uint64) uint64{}
+		for _, m := range ms {
+			for k, v := range m {
+				out[k] = v
+			}
+		}
+		return out
+	}
+	var pendingO string
+	var pendingD map[int]func(func(int) uint64) uint64
 	add := func(off uint32, toks string, shape, ext bool, ev func(func(int) uint64) uint64, cl func(func(int) uint64) bool) {
-		cases = append(cases, &amCase{id: len(cases), off: off, toks: toks, shape: shape, extMSB: ext, eval: ev, clean: cl})
+		cases = append(cases, &amCase{id: len(cases), off: off, toks: toks, otoks: pendingO, derive: pendingD, shape: shape, extMSB: ext, eval: ev, clean: cl})
 	}
 	for _, off := range offs {
 		for _, a := range as {
 			a := a
+			pendingO, pendingD = "S "+ot(a), a.derive
 			add(off, "S "+a.toks, a.shape, a.extMSB, a.eval, a.cleanOK)
 			for _, b := range as {
 				b := b
+				if a.derive != nil && b.derive != nil {
+					continue // both would define vreg 7
+				}
+				pendingO, pendingD = "A 9 "+ot(a)+" "+ot(b), merge(a.derive, b.derive)
 				add(off, "A 9 "+a.toks+" "+b.toks, a.shape && b.shape && !(a.isShl && b.isShl), a.extMSB || b.extMSB,
 					func(r func(int) uint64) uint64 { return a.eval(r) + b.eval(r) },
 					func(r func(int) uint64) bool { return a.cleanOK(r) && b.cleanOK(r) })
@@ -229,8 +280,8 @@ func amodeUnit(work string, rnd *rand.Rand) {
 		if !ok {
 			hx.Fatal("amode hook: no result for case %d (%s)", c.id, c.toks)
 		}
-		asis := orc.Askf("c02 amode 0 %d %s", c.off, c.toks)
-		fixed := orc.Askf("c02 amode 1 %d %s", c.off, c.toks)
+		asis := orc.Askf("c02 amode 0 %d %s", c.off, c.otoks)
+		fixed := orc.Askf("c02 amode 1 %d %s", c.off, c.otoks)
 		rep.Case(fmt.Sprintf("amode/%d/%s", c.off, c.toks))
 		in := map[string]any{"offBase": c.off, "ptr": c.toks}
 		switch {
@@ -257,7 +308,16 @@ func amodeUnit(work string, rnd *rand.Rand) {
 			rep.Count("amode:outside-frontend-shape")
 			continue
 		}
-		for ri, rho := range rhos {
+		for ri, rho0 := range rhos {
+			rho := rho0
+			if len(c.derive) > 0 {
+				rho = func(r int) uint64 {
+					if f, ok := c.derive[r]; ok {
+						return f(rho0)
+					}
+					return rho0(r)
+				}
+			}
 			r9 := rho
 			if strings.HasPrefix(c.toks, "A 9") {
 				// the Iadd's own vreg holds its value
